@@ -278,10 +278,6 @@ pub fn run(segs: &[Vec<&str>]) -> String {
         Some(b) => b,
         None => return "bad-op".into(),
     };
-    let status = |r: &Result<_, String>| match r {
-        Ok(_) => "ok".to_string(),
-        Err(s) => s.clone(),
-    };
     let head = format!(
         "{} {}",
         match &e {
@@ -690,20 +686,28 @@ struct Code {
 }
 
 fn oracle_one(ws: &[u128], ty: &str, rng: &mut Rng, rep: &mut Report, brute: bool) {
+    let mut fails: Vec<(&'static str, String)> = Vec::new();
+    oracle_inner(ws, ty, rng, rep, brute, &mut fails);
+    for (prop, text) in fails {
+        rep.fail(prop, format!("huff {} | {} : {}", ty, weights_str(ws), text));
+    }
+}
+
+fn oracle_inner(ws: &[u128], ty: &str, rng: &mut Rng, rep: &mut Report, brute: bool, fails: &mut Vec<(&'static str, String)>) {
     let replay = || format!("huff {} | {}", ty, weights_str(ws));
     let n = ws.len();
     let opts: Vec<Option<u128>> = ws.iter().map(|&w| Some(w)).collect();
     let (e, d) = match build(ty, 0, &opts) {
         Some((Ok(e), Ok(d))) => (e, d),
         _ => {
-            rep.fail("C15", format!("{} : construction failed", replay()));
+            fails.push(("C15", "construction failed".into()));
             return;
         }
     };
     rep.eval("C15");
     rep.count(&format!("huff.type.{}", ty));
     rep.count(&format!("huff.n.{}", if n <= 8 { n.to_string() } else if n <= 64 { "9-64".into() } else { "65+".into() }));
-    let mut fail = |what: &str| rep.fail("C15", format!("{} : {}", replay(), what));
+    let mut fail = |what: &str| fails.push(("C15", what.to_string()));
     if e.num_symbols() != n || d.num_symbols() != n {
         fail("num_symbols");
         return;
@@ -863,10 +867,11 @@ fn oracle_one(ws: &[u128], ty: &str, rng: &mut Rng, rep: &mut Report, brute: boo
             ok &= en.iter().filter(|&&v| v == 0).count() == 1;
         }
         if !ok {
-            rep.fail("C15", format!("{} : encoder array and decoder table describe different trees", replay()));
+            fail("encoder array and decoder table describe different trees");
         }
     }
     // C09: symbols outside the alphabet are rejected in both forms, nothing is emitted
+    let mut c09: Vec<String> = Vec::new();
     for s in [n as u128, n as u128 + 1, 2 * n as u128 - 2, 2 * n as u128 - 1, 2 * n as u128, (1 << 32) + n as u128 - 1, (1u128 << 63) + n as u128 - 1, u64::MAX as u128, n as u128 + rng.below(1 << 40)] {
         if s < n as u128 {
             continue;
@@ -875,11 +880,15 @@ fn oracle_one(ws: &[u128], ty: &str, rng: &mut Rng, rep: &mut Report, brute: boo
         for prefix in [true, false] {
             let (bits, st) = encode_with(&e, prefix, s as usize, None);
             if st != "impossible" || !bits.is_empty() {
-                rep.fail("C09", format!("{} | {} {:x} : out-of-alphabet symbol not rejected", replay(), if prefix { "prefix" } else { "suffix" }, s));
+                c09.push(format!("{} {:x} : out-of-alphabet symbol not rejected", if prefix { "prefix" } else { "suffix" }, s));
             }
         }
     }
     rep.sample("C15", || format!("{} cost {}", replay(), cost));
+    drop(fail);
+    for t in c09 {
+        fails.push(("C09", t));
+    }
 }
 
 pub fn oracle(rng: &mut Rng, tier: &str, rep: &mut Report) {
